@@ -1,7 +1,7 @@
 (** XRef/HeaderProofs.v — C17: the header marker has no proper border, hence the first occurrence of
     the marker in prefix ++ file is at |prefix|; locate_start_offset and locate_xref_offset on
     prefixed files. *)
-From PdfV Require Import Base.Prelude Gen.Generated XRef.Model XRef.Spec.
+From PdfV Require Import Base.Prelude Gen.Generated XRef.Model XRef.Spec XRef.LexShift.
 
 Lemma bytes_eqb_refl a : bytes_eqb a a = true.
 Proof. induction a as [|x a IH]; cbn; [reflexivity|]. rewrite N.eqb_refl. exact IH. Qed.
@@ -167,5 +167,13 @@ Proof.
     replace (N.to_nat (N.of_nat (length p) + i + N.of_nat (length xr_startxref_kw)) - length p)%nat
       with (N.to_nat (i + N.of_nat (length xr_startxref_kw))) by lia.
     rewrite skipn_all2 by lia. reflexivity. }
-  rewrite Hd. exact H.
+  cbv zeta in *. rewrite Hd.
+  (* the lexeme after the keyword does not depend on the lexer position (XRef/LexShift.v) *)
+  pose proof (next_lexeme_pos (lenN p + i + lenN xr_startxref_kw) (i + lenN xr_startxref_kw)
+                (drop (i + lenN xr_startxref_kw) f)) as Hpos.
+  destruct (next (mkLx (i + lenN xr_startxref_kw) (drop (i + lenN xr_startxref_kw) f))) as [[w s']| | |];
+    cbn [bind rmap] in *; try discriminate.
+  destruct (next (mkLx (lenN p + i + lenN xr_startxref_kw) (drop (i + lenN xr_startxref_kw) f))) as [[w2 s2]| | |];
+    cbn [bind rmap] in *; try discriminate.
+  inversion Hpos; subst. exact H.
 Qed.
